@@ -286,18 +286,32 @@ def save_calibrator_state(  # noqa: PLR0913
             data = series_file["data"]  # Get the existing dataset
             previous_shape = data.shape  # E.g., (num_rows, dim2, dim3, ...)
             nb_rows = previous_shape[0]
-            to_append = series_samp[nb_rows:]  # Slicing out only the new part
 
-            # Resize the first dimension so there's room for the new data
-            new_num_rows = nb_rows + to_append.shape[0]
-            data.resize((new_num_rows,) + previous_shape[1:])
+            # The rows on disk can be kept only if they are the first rows of the
+            # series being saved (an earlier checkpoint of the same run); a file
+            # left by a different run is rewritten from scratch below.
+            is_prefix = (
+                previous_shape[1:] == series_samp.shape[1:]
+                and nb_rows <= series_samp.shape[0]
+                and data[:].tobytes()
+                == np.asarray(series_samp[:nb_rows], dtype=data.dtype).tobytes()
+            )
 
-            # Write the appended portion
-            data[nb_rows:new_num_rows] = to_append
+            if is_prefix:
+                to_append = series_samp[nb_rows:]  # Slicing out only the new part
 
-        return _commit_checkpoint(checkpoint_path, calibration_params)
+                # Resize the first dimension so there's room for the new data
+                new_num_rows = nb_rows + to_append.shape[0]
+                data.resize((new_num_rows,) + previous_shape[1:])
 
-    # If the file does not exist, create it and store the entire dataset in one shot.
+                # Write the appended portion
+                data[nb_rows:new_num_rows] = to_append
+
+        if is_prefix:
+            return _commit_checkpoint(checkpoint_path, calibration_params)
+
+    # If the file does not exist (or holds another run), create it and store the
+    # entire dataset in one shot.
     with h5py.File(series_filepath, mode="w") as series_file:
         # Create a resizable (maxshape=None along axis 0) dataset
         data = series_file.create_dataset(
